@@ -7,7 +7,7 @@ import vlib
 # operations beyond the listed properties (DESIGN.md section 9): a wrong RESULT of one of these is reported as
 # information (NOTE line, evidence counter); a state change or a panic caused by them is still a violation.
 INFO_OPS = {"delete_label", "s_read_label", "get_labels", "find_label", "pointer_destinations", "equal_regions", "endian_encode", "endian_decode",
-            "s_read_sjis", "s_read_utf16"}
+            "s_read_sjis", "s_read_utf16", "equal_regions2"}
 
 
 def informational(ev, pre, got):
